@@ -34,6 +34,56 @@ func c06(c *Ctx) {
 	r.Rule("R06.W", "no variable-length big.Int.Bytes() reaches a fixed-width position (copy left-aligned, constant slice/index, bytes.Equal against a digest, stored as key); fixed-width conversions use the protocol width of their operand", 8)
 	r.Rule("R06.A", "the client's DH message is readable by a conformant server for every g_b: SHA1(data)+data is padded with 0..15 bytes to a whole block (tabulated over the data length), so the server's search over paddings 0..15 finds the hash whatever the byte length of g_b", 1)
 	c.checkTempKeyPad("R06.A")
+	// what the client echoes to the server is what it received, as received: pq travels back as the very string
+	// of resPQ (a re-rendering of the parsed number drops the leading zero bytes of a fixed-width pq), the nonces as
+	// the values drawn / received
+	r.Rule("R06.E", "the values the exchange echoes are stored as received: p_q_inner_data.pq is resPQ.pq itself, the nonce fields of p_q_inner_data and client_DH_inner_data are the RandomInt128 drawn for req_pq and resPQ.server_nonce themselves", 5)
+	if f := c.fn("R06.E", load.RootMod, "*MTProto", "makeAuthKey"); f != nil {
+		want := map[string]string{
+			"objects.PQInnerData.Pq":                "field:objects.ResPQ.Pq",
+			"objects.PQInnerData.Nonce":             "call:" + load.TLPkg + ".RandomInt128",
+			"objects.PQInnerData.ServerNonce":       "field:objects.ResPQ.ServerNonce",
+			"objects.ClientDHInnerData.Nonce":       "call:" + load.TLPkg + ".RandomInt128",
+			"objects.ClientDHInnerData.ServerNonce": "field:objects.ResPQ.ServerNonce",
+		}
+		exact := func(v ssa.Value) string {
+			switch x := v.(type) {
+			case *ssa.UnOp:
+				if fa, ok := x.X.(*ssa.FieldAddr); ok && x.Op == token.MUL {
+					return "field:" + an.FieldName(fa.X.Type(), fa.Field)
+				}
+			case *ssa.Call:
+				return "call:" + an.CalleeName(x.Common())
+			}
+			return v.Name() + " = " + v.String()
+		}
+		seen := map[string]bool{}
+		for _, b := range f.Blocks {
+			for _, in := range b.Instrs {
+				st, ok := in.(*ssa.Store)
+				if !ok {
+					continue
+				}
+				fa, ok := st.Addr.(*ssa.FieldAddr)
+				if !ok {
+					continue
+				}
+				fn := an.FieldName(fa.X.Type(), fa.Field)
+				w, ok := want[fn]
+				if !ok {
+					continue
+				}
+				seen[fn] = true
+				got := exact(st.Val)
+				r.Check(got == w, "R06.E", "echo:"+strings.TrimPrefix(fn, "objects."), c.pos(st.Pos()), "stored value is "+got+", expected exactly "+w)
+			}
+		}
+		for fn := range want {
+			if !seen[fn] {
+				r.Undecide("R06.E", "echo:"+strings.TrimPrefix(fn, "objects."), c.pos(f.Pos()), "no store to this field in makeAuthKey")
+			}
+		}
+	}
 	r.Rule("R06.B", "no function of packages math and keys writes through a []byte parameter other than a named destination (dst / out): nonces and key material are used again after the call", 2)
 	c.paramsUntouched("R06.B", load.MathPkg, func(g *ssa.Function, idx int) bool {
 		n := g.Params[idx].Name()
